@@ -301,6 +301,53 @@ def h_layout(shape):
     return h
 
 
+def h_layout_sym(shape):
+    """validate_layout on a layout with one symbolic trap (decimal grid 1e-7, so that the layout's 6-decimal rounding is
+    modelled exactly): accepted iff the traps, as the layout stores them, respect the minimal distance."""
+
+    def h(inp):
+        from pulser.register.register_layout import RegisterLayout
+
+        rng = shape["range"]
+        P = [[0.0, 0.0], [6.0, 0.0], [inp.fix("tx", 7, -rng, rng), inp.fix("ty", 7, -rng, rng)]]
+        try:
+            lay = RegisterLayout(P)
+        except ValueError:
+            raise core.Infeasible()  # bit-identical traps are refused at construction
+        mind = shape["mind"]
+        dev = mk_device(inp, shape, dims=2, min_atom_distance=mind, min_layout_traps=1)
+        try:
+            dev.validate_layout(lay)
+            ok = True
+        except (ValueError, TypeError):
+            ok = False
+        R = [[(x.round(6) if is_sym(x) else float(np.round(x, 6))) for x in p] for p in P]
+
+        def sq(i, j):
+            s = 0
+            for k in range(2):
+                d = R[i][k] - R[j][k]
+                s = s + d * d
+            return s
+
+        EPS = 1e-9
+
+        def lt_c(s, c):
+            return AND(c > 0, s < c * c)
+
+        pairs = [(0, 2), (1, 2)]
+        bad_def = OR(*[OR(lt_c(sq(i, j), mind - PREC - EPS), lt_c(sq(i, j), PREC - EPS)) for i, j in pairs])
+        bad_pos = OR(*[OR(lt_c(sq(i, j), mind - PREC + EPS), lt_c(sq(i, j), PREC + EPS)) for i, j in pairs])
+        obs = [("k2:layout_keeps_every_trap", lay.number_of_traps == 3 and len(lay.traps_dict) == 3)]
+        if ok:
+            obs.append(("k2:accepted_layout_respects_min_distance", NOT(bad_def)))
+        else:
+            obs.append(("k2:fitting_layout_is_accepted", bad_pos))
+        return obs
+
+    return h
+
+
 def h_params(shape):
     def h(inp):
         kw = {}
@@ -419,6 +466,9 @@ def kernels(tier):
     for ntraps, nq in ((4, 2), (5, 3), (9, 4)):
         for maxt in (True, False):
             ks.append(("layout", dict(ntraps=ntraps, nq=nq, maxt=maxt)))
+    for mind in (0.0, 1.0):
+        for rng in (2, 0.00001):
+            ks.append(("layout_sym", dict(mind=mind, range=rng)))
     P = ["min_atom_distance", "max_atom_num", "max_radial_distance", "max_sequence_duration", "max_runs",
          "min_layout_traps", "max_layout_traps", "max_layout_filling", "optimal_layout_filling"]
     for p in P:
@@ -436,4 +486,4 @@ def kernels(tier):
 
 
 def harness(kernel, shape):
-    return {"coords": h_coords, "layout": h_layout, "params": h_params, "maxconn": h_maxconn, "autolayout": h_autolayout}[kernel](shape)
+    return {"coords": h_coords, "layout": h_layout, "layout_sym": h_layout_sym, "params": h_params, "maxconn": h_maxconn, "autolayout": h_autolayout}[kernel](shape)
